@@ -45,7 +45,7 @@ SPEC = {
     "components_real": ["fakesnow/*", "sqlglot", "duckdb engine (in-memory)"],
     "components_stubbed": ["thread scheduling (serial: one thread in list order; otherwise baton over real threads)"],
     "assumptions": ["writes of different sessions never touch the same table (the property says non-conflicting writes)"],
-    "mandatory_probes": {"any": ["foreign_read_during_open_txn", "foreign_read_after_commit", "rollback", "commit_without_txn", "own_read_in_txn", "fail_in_txn", "preempt_inside_op"]},
+    "mandatory_probes": {"any": ["foreign_read_during_open_txn", "foreign_read_after_commit", "rollback", "commit_without_txn", "own_read_in_txn", "fail_in_txn", "preempt_inside_op", "table_created_in_txn"]},
 }
 
 
@@ -64,12 +64,25 @@ def gen(rng: Any, prop: str, tier: str) -> dict[str, Any]:
     open_txn = {sid: False for sid in sids}
     mine_in_txn: dict[str, list[tuple[str, int]]] = {sid: [] for sid in sids}
     all_tables = [t for sid in sids for t in tables[sid]]
+    new_tables: list[str] = []
     for sid in sids:
         ops.append({"s": sid, "k": "connect", "database": DB, "schema": SC})
     for _ in range(rng.randint(10, 36)):
         sid = rng.choice(sids)
         cur = rng.choice([0, 0, 1])
-        kind = rng.choices(["begin", "end", "insert", "read", "read2", "delete_own", "fail", "end_noop"], [5, 7, 12, 12, 2, 2, 2, 1])[0]
+        kind = rng.choices(["begin", "end", "insert", "read", "read2", "delete_own", "fail", "end_noop", "create_in_txn"], [5, 7, 12, 12, 2, 2, 2, 1, 2])[0]
+        if kind == "create_in_txn":
+            if not open_txn[sid]:
+                kind = "insert"
+            else:
+                # table DDL inside a transaction: the table and its rows appear to others together at COMMIT
+                t = f"N_{sid.upper()}_{fresh()}"
+                ids = [fresh()]
+                ops.append({"s": sid, "k": "exec", "cur": cur, "sql": f"CREATE TABLE {t} (id INT, who VARCHAR(10))", "ddl": {"table": t}})
+                ops.append({"s": sid, "k": "exec", "cur": cur, "sql": f"INSERT INTO {t} VALUES ({ids[0]}, '{sid}')", "w": {"table": t, "ids": ids}})
+                mine_in_txn[sid].append((t, ids[0]))
+                new_tables.append(t)
+                continue
         if kind == "begin":
             if open_txn[sid]:
                 kind = "insert"
@@ -102,7 +115,7 @@ def gen(rng: Any, prop: str, tier: str) -> dict[str, Any]:
                 mine_in_txn[sid].remove((t, i))
                 ops.append({"s": sid, "k": "exec", "cur": cur, "sql": f"DELETE FROM {t} WHERE id = {i}", "d": {"table": t, "ids": [i]}})
         elif kind == "read":
-            t = rng.choice(all_tables)
+            t = rng.choice(all_tables + new_tables[-2:])
             ops.append({"s": sid, "k": "exec", "cur": cur, "sql": f"SELECT id FROM {DB}.{SC}.{t}", "r": [t]})
         elif kind == "read2":
             ts = rng.sample(all_tables, 2) if len(all_tables) >= 2 else all_tables
@@ -143,6 +156,7 @@ def check_history(history: list[dict[str, Any]], probes: dict[str, int]) -> dict
     # --- reconstruct transactions per session from program order and outcomes
     txns: list[dict[str, Any]] = []
     row_txn: dict[int, dict[str, Any]] = {}
+    table_txn: dict[str, dict[str, Any]] = {}
     for sid, hs in per.items():
         cur: dict[str, Any] | None = None
         for h in hs:
@@ -158,7 +172,11 @@ def check_history(history: list[dict[str, Any]], probes: dict[str, int]) -> dict
                     return v_(f"fail-outcome/{out.get('exc')}", "a failing statement inside the history must raise ProgrammingError", brief(h))
                 continue
             if not out.get("ok"):
-                return v_(f"raises/{t or ('insert' if 'w' in op else 'delete' if 'd' in op else 'read')}/{out.get('exc')}", "statement failed although writes are non-conflicting", brief(h))
+                if "r" in op and any(x.startswith("N_") for x in op["r"]) and out.get("exc") == "ProgrammingError":
+                    h["_missing_table"] = True  # judged below: the table may legitimately not exist (yet / any more) for this reader
+                    h["_txn_open"] = cur
+                    continue
+                return v_(f"raises/{t or ('insert' if 'w' in op else 'delete' if 'd' in op else 'ddl' if 'ddl' in op else 'read')}/{out.get('exc')}", "statement failed although writes are non-conflicting", brief(h))
             if t == "begin":
                 cur = {"s": sid, "begin": h, "rows": {}, "deleted": set(), "end": None, "state": "open", "auto": False}
                 txns.append(cur)
@@ -183,6 +201,13 @@ def check_history(history: list[dict[str, Any]], probes: dict[str, int]) -> dict
                 for i in op["w"]["ids"]:
                     tx["rows"][i] = {"table": op["w"]["table"], "h": h}
                     row_txn[i] = tx
+            elif "ddl" in op:
+                tx = cur
+                if tx is None:
+                    tx = {"s": sid, "begin": h, "rows": {}, "deleted": set(), "end": h, "state": "committed", "auto": True}
+                    txns.append(tx)
+                tx.setdefault("tables", {})[op["ddl"]["table"]] = h
+                table_txn[op["ddl"]["table"]] = tx
             elif "d" in op:
                 tx = cur
                 for i in op["d"]["ids"]:
@@ -195,8 +220,25 @@ def check_history(history: list[dict[str, Any]], probes: dict[str, int]) -> dict
     for sid, hs in per.items():
         for h in hs:
             op = h["op"]
+            if "r" in op and h.get("_missing_table"):
+                # "table does not exist" is right exactly when the creating transaction is not (yet) visible to this reader
+                for tname in op["r"]:
+                    tx = table_txn.get(tname)
+                    if tx is None:
+                        continue
+                    end_ret = tx["end"]["ret"] if tx["end"] is not None else INF
+                    own_visible = tx["s"] == sid and tx["tables"][tname]["ret"] < h["inv"] and not (tx["state"] == "rolledback" and tx["end"]["ret"] < h["inv"])
+                    reader_txn = h.get("_txn_open")
+                    older_own = reader_txn is not None and reader_txn["begin"]["inv"] < end_ret
+                    if own_visible or (tx["s"] != sid and tx["state"] == "committed" and end_ret < h["inv"] and not older_own):
+                        return v_("created-table-not-visible" + ("/own" if tx["s"] == sid else ""), "a table created by a committed (or the reader's own) transaction must be visible", {"read": brief(h), "table": tname, "txn_of": tx["s"]})
+                continue
             if "r" not in op or not h["out"].get("ok"):
                 continue
+            for tname in op["r"]:
+                tx = table_txn.get(tname)
+                if tx is not None and tx["s"] != sid and (tx["state"] != "committed" or h["ret"] < tx["end"]["inv"]):
+                    return v_("uncommitted-table-visible", "a table created inside a foreign transaction is visible before COMMIT / after ROLLBACK", {"read": brief(h), "table": tname, "txn_of": tx["s"]})
             got = [r[0] for r in (h["out"].get("rows") or [])]
             if len(got) != len(set(got)):
                 return v_("read/duplicate-row", "a row was returned twice", brief(h))
@@ -320,6 +362,7 @@ def run(case: dict[str, Any]) -> dict[str, Any]:
                     violation = v_("final-state", "the committed state at the end differs from the committed transactions' rows",
                                    {"table": t, "expected": exp.get(t, []), "observed": got.get(t, [])})
                     break
+            probes["table_created_in_txn"] = sum(1 for o in case["ops"] if "ddl" in o)
         nontrivial = probes.get("foreign_read_during_open_txn", 0) + probes.get("foreign_read_after_commit", 0) > 0
         sched = res["schedule"] if res["schedule"] is not None else [o["s"] for o in case["ops"]]
         out = {
